@@ -164,8 +164,24 @@ def one(seed, i, tier, res, pool):
     problems = []
     via_api = rng.random() < 0.25
     try:
+        fx = dx = None
         if via_api:
-            # through the registry: the message eliot builds itself
+            # through the registry: the message eliot builds itself; a further destination with a DIFFERENT json_default
+            # receives the very same dict from the same logging call and must encode it its own way
+            def has_custom2(x):
+                if isinstance(x, Custom2):
+                    return True
+                if isinstance(x, dict):
+                    return any(has_custom2(y) for y in x.values())
+                if isinstance(x, (list, tuple, set)):
+                    return any(has_custom2(y) for y in x)
+                return False
+            # (only when both defaults can encode every value: Custom2 is known to default 'b' alone)
+            if which in ("a", "b") and not has_custom2(fields):
+                other = "b" if which == "a" else "a"
+                fx = RecordingFile("b")
+                dx = FileDestination(file=fx, json_default=DEFAULTS[other])
+                add_destinations(dx)
             add_destinations(db, dt)
             try:
                 if rng.random() < 0.5:
@@ -178,6 +194,8 @@ def one(seed, i, tier, res, pool):
             finally:
                 remove_destination(db)
                 remove_destination(dt)
+                if dx is not None:
+                    remove_destination(dx)
         else:
             db(dict(message))
             dt(dict(message))
@@ -222,6 +240,24 @@ def one(seed, i, tier, res, pool):
                 problems.append("%s: line decodes to %s, not an object" % (name, type(obj).__name__))
                 continue
             decoded_b.append((name, raw, obj))
+    if fx is not None:
+        # Custom(v) is {"custom": v} under default 'a' and ["C", v] under default 'b'
+        for op in fx.ops:
+            if op[0] != "write" or not op[1]:
+                continue
+            try:
+                obj = json.loads(op[1].decode("utf-8"))
+            except Exception as e:
+                problems.append("second destination: line not decodable: %r" % (e,))
+                continue
+            if obj.get("message_type") == "eliot:destination_failure":
+                continue
+            for k, v in fields.items():
+                if isinstance(v, Custom) and k in obj:
+                    want = {"custom": v.v} if other == "a" else ["C", v.v]
+                    if not json_equal(obj[k], want):
+                        problems.append("destination with json_default %r encoded a custom object as %r, its own default gives %r" % (other, obj[k], want))
+        res["counters"]["second_default_destinations"] = res["counters"].get("second_default_destinations", 0) + 1
     bins = [x for x in decoded_b if x[0] == "binary"]
     txts = [x for x in decoded_b if x[0] == "text"]
     for (n1, rawb, ob), (n2, rawt, ot) in zip(bins, txts):
